@@ -222,4 +222,21 @@ PROPS = {
                      "the symbol table of the built library is cross-checked against the catalogue (evidence: "
                      "uncovered_accelerated_symbols)", ASAN_NOTE],
     ),
+    "C16": dict(
+        runs=std(),
+        rule=("case = one random well-typed straight-line program (module type, dispatch, N, program number, length 5..40) "
+              "over typed values ZNX / DFT / BIG / PPOL / PMAT; every integer-valued result is compared with the exact "
+              "interpreter as soon as it is produced; distinct by descriptor hash; non-trivial when the program contains "
+              "a DFT-space product and a coefficient-space operation on an inverse-DFT result (FFT64) or a dft/idft round "
+              "trip (NTT120)"),
+        require={"all": ["programs", "operations_executed", "op:vmp_apply_dft_to_dft", "op:svp_apply_dft",
+                         "op:vec_znx_idft_tmp_a", "op:vec_znx_big_range_normalize_base2k",
+                         "edge:svp_apply_dft->vmp_apply_dft_to_dft", "edge:vmp_apply_dft_to_dft->vec_znx_idft",
+                         "edge:vec_znx_idft->vec_znx_big_normalize_base2k"]},
+        assumptions=["the interpreter keeps 128-bit exact polynomials and a rigorous error bound eps per DFT-space value "
+                     "(C01 budget per product, propagated through chained products); an operation is only emitted when "
+                     "eps < 1/4 and all magnitudes are inside the documented ranges, so exact equality is the oracle",
+                     ASAN_NOTE],
+        technique="runtime monitoring: random API programs checked online against an exact interpreter, under ASan+UBSan",
+    ),
 }
